@@ -54,3 +54,10 @@ func (s *Sink) Bytes() []byte { return s.buf }
 
 // Len returns the number of bytes accepted so far.
 func (s *Sink) Len() int { return len(s.buf) }
+
+// StringSink is a Sink that also implements io.StringWriter, as bufio.Writer, bytes.Buffer and
+// os.File do: io.WriteString (used for gzip header strings) then calls WriteString instead of
+// Write. It counts and fails exactly like a Write call.
+type StringSink struct{ *Sink }
+
+func (s StringSink) WriteString(str string) (int, error) { return s.Sink.Write([]byte(str)) }
